@@ -9,4 +9,5 @@ INVARIANT CmpRefines
 INVARIANT RemRefines
 INVARIANT MulRefines
 INVARIANT RoundRefines
+INVARIANT Tight
 CHECK_DEADLOCK FALSE
